@@ -86,6 +86,12 @@ def r_euvat(rel, x):
         if not same(o, exp):
             bad.append(('wrapper!=constituent:%s' % ('wrapper-accepts' if acc(o) else 'wrapper-rejects' if acc(exp) else 'value'),
                         {'x': x, 'eu.vat': [str(t) for t in o], EU[p2]: [str(t) for t in exp]}))
+        # the number without the country code, as the national module is documented to take it: if that is accepted, the
+        # prefixed spelling handed over by the dispatcher has to be accepted too
+        oc2 = core.out(M(EU[p2]).validate, n[2:])
+        if acc(oc2) and oc2[1] == n[2:] and not acc(o) and o[0] != 'EXC' and len(n) > 4 and n[2:4].upper() != CC and p2 not in ('eu', 'im'):
+            bad.append(('wrapper-rejects-number-the-national-module-accepts-without-prefix',
+                        {'x': x, 'eu.vat': [str(t) for t in o], EU[p2] + '(unprefixed)': oc2[1]}))
         anyacc = acc(o) or acc(oc)
     else:
         if o[0] == 'EXC':
@@ -348,6 +354,14 @@ def shard(a):
         # ... and every two-digit field value (month offsets of be.bis, type digits), edge characters, table bounds
         for w in gen.class_sweep(src, nbase=3) + gen.pair_pool(src, nbase=2) + gen.edge_pool(src) + gen.boundary_pool(src):
             prop({'rel': rel, 'x': w}, res)
+    if kind in ('eu.vat', 'vatin'):
+        # every length and edge character the national module accepts, with and without the country prefix (a dispatcher
+        # hands the prefixed spelling on first)
+        CC = a['cc'].upper()
+        for w in gen.edge_pool(src) + gen.boundary_pool(src):
+            w2 = w[2:] if w[:2].upper() == CC else w
+            for x in (CC + w2, CC + ' ' + w2, w):
+                prop({'rel': rel, 'x': x}, res)
     res.notes['cases_per_relation_source'] = {'%s<-%s' % (rel, src): res.evals}
     return res
 
